@@ -245,6 +245,31 @@ class Exec(StmtMixin, CallMixin):
                 if isinstance(m, ast.FunctionDef) and m.name == a:
                     qual = ".".join(self.f.qual.split(".")[:-1] + [a])
                     return SFunc(target=qual, name=a)
+            # inherited method: walk the base classes (resolved through the imports of each class's module)
+            cls_q = ".".join(self.f.qual.split(".")[:-1])
+            seen = set()
+            while cls_q and cls_q not in seen:
+                seen.add(cls_q)
+                try:
+                    node, _, _, modname = extract.load_class(cls_q)
+                except Exception:
+                    break
+                for m in node.body:
+                    if isinstance(m, ast.FunctionDef) and m.name == a:
+                        return SFunc(target=cls_q + "." + a, name=a)
+                nxt = None
+                for b in node.bases:
+                    bn = ast.unparse(b)
+                    head = bn.split(".")[0]
+                    imps = extract.module_imports(modname)
+                    if head in imps:
+                        imp = imps[head]
+                        q = imp[1] if imp[0] == "module" else imp[1] + "." + imp[2]
+                        nxt = q + bn[len(head):]
+                    else:
+                        nxt = modname + "." + bn
+                    break
+                cls_q = nxt
         return NotImplemented
 
     def e_Tuple(self, n, st):
@@ -510,7 +535,7 @@ def to_z(v):
     return z3.IntVal(v) if isinstance(v, int) else v
 
 
-BUILTIN_NAMES = {"min", "max", "abs", "int", "float", "len", "range", "prange", "isnan", "isfinite", "isinf", "all", "any",
+BUILTIN_NAMES = {"array_of", "min", "max", "abs", "int", "float", "len", "range", "prange", "isnan", "isfinite", "isinf", "all", "any",
                  "implies", "eq", "old", "sum", "floor", "ceil", "bool", "list", "tuple", "enumerate", "zip", "round",
                  "literal_eval", "print", "isinstance", "str", "sorted", "map", "rint", "sqrt", "bit", "forall_cells",
                  "shape_eq", "unchanged", "trunc", "dict", "type", "iff", "tok", "sum32", "Window", "repr", "Margins"}
